@@ -208,6 +208,26 @@ def wave_case(res, case):
                 sim.s[0, pos, :n] = init[kk][perm]; sim.s[1, pos, :n] = tt[kk][perm]; sim.s[2, pos, :n] = fin[kk][perm]
             sim.s_to_c(); sim.c_prop(seed=0); sim.c_to_s()
         compare(f'reuse-g{int(cuda)}', sim)   # memory behind the terminators may hold stale entries of the earlier run: ports only
+    # state transfer after capture: CPU method vs GPU kernel; compared through the results of the following cycle
+    # (the transferred stimulus of a state element without connected outputs is not observable and not compared)
+    if spos:
+        rs, nxt = [], []
+        live = [k for k, p in enumerate(spos) if len(c.s_nodes[p].outs) > 0]
+        for cuda in (False, True):
+            sim, _ = run(cuda=cuda)
+            sim.s_ppo_to_ppi(time=2.5)
+            rs.append(np.asarray(sim.s)[0:3][:, [spos[k] for k in live]][:, :, :n].copy())
+            sim.s_to_c(); sim.c_prop(seed=0); sim.c_to_s()
+            nxt.append(ports(sim))
+        res.evals += 1
+        lp = [spos[k] for k in live]
+        exp0 = np.asarray(base.s)[2][lp][:, :n]; exp2 = np.asarray(base.s)[8][lp][:, :n]
+        for nm, r in zip(('cpu', 'gpu'), rs):
+            if not (np.array_equal(r[0], exp0) and np.all(r[1] == 2.5) and np.array_equal(r[2], exp2)):
+                res.violation(f'{key0}/ppo-to-ppi-{nm}', case, f's_ppo_to_ppi ({nm} path): state elements do not receive (previous final value, time, captured value) {nl}')
+        if not np.array_equal(nxt[0], nxt[1]):
+            res.violation(f'{key0}/second-cycle', case, f'results of the cycle after s_ppo_to_ppi differ between CPU and GPU path {nl}')
+        res.count('cfg_state_transfer')
     # delay datasets
     d3 = np.concatenate([delays, delays * 2, wsim.delay_array(nlines, W.zero_fork_delays(c, ['e' if x == 'u' else 'u' for x in case['plan']]))])
     singles = []
